@@ -463,3 +463,7 @@ def run(ctx):
     check_reductions(ctx, 6)
     c09.check_success_iff_no_error(ctx, 7)
     check_executor_aggregates(ctx, 7)
+    # "an uncontended pipeline finishes in exactly the ticks its operators need": the tick plan and count-down of C05
+    from . import c05, c08
+    sh = c05.check_plan(c08._Renumber(ctx, {1: 8, 2: 8, 5: 8, 6: 8, 7: 8}))
+    c05.check_tick_body(c08._Renumber(ctx, {4: 8, 5: 8, 6: 8, 7: 8}), sh)
